@@ -11,6 +11,7 @@ use std::sync::Arc;
 pub mod frim;
 pub mod bgp_io;
 pub mod bgp_in;
+pub mod bgp_metrics;
 pub mod bmp_io;
 pub mod bmp_conn;
 pub mod c09;
